@@ -146,6 +146,15 @@ theorem close_waits_unbounded :
       w.fn == "Close" && w.cond == "err != nil" && w.depth != 0 && !w.tail) = true ∧
     ((waitSites.filter (fun w => w.fn == "Close" && w.tail)).map (·.call)) = ["wg.Wait"] := by decide
 
+/-- F13. Writers and the legacy ATP v1 result reader use DIFFERENT mutexes, and neither takes the
+    client mutex: `sendCBOR` locks only `writeMutex`, `getResultV1` only `v1ReadMutex`.  (With one
+    mutex for both, a caller whose work-start write waits for a busy v1 plugin would keep the caller
+    that has to read the plugin's pending result from reading it: neither Execute returns.  Model: the
+    send steps and `cReadV1` are independent steps on different streams.) -/
+theorem writers_and_v1_reader_use_different_mutexes :
+    (locks.lookup "sendCBOR") = some ["writeMutex"] ∧
+    (locks.lookup "getResultV1") = some ["v1ReadMutex"] := by decide
+
 end Arca.AtpClientFacts
 
 #print axioms Arca.AtpClientFacts.sections_are_model_steps
@@ -162,3 +171,4 @@ end Arca.AtpClientFacts
 #print axioms Arca.AtpClientFacts.spawn_sites
 #print axioms Arca.AtpClientFacts.no_lock_inside_section
 #print axioms Arca.AtpClientFacts.close_waits_unbounded
+#print axioms Arca.AtpClientFacts.writers_and_v1_reader_use_different_mutexes
